@@ -247,6 +247,7 @@ def run(ctx):
         rsumm["combos"], npairs, len(triples), len(sel) - npairs - len(triples), rsumm["goroutines"], rsumm["executions"], len(probs)))
     by_id = {c["id"]: c for c in cases}
     done_sigs = set()
+    unreproduced = []
     for p in probs:
         if p["id"] == -1:
             for m in p["mutated"]:
@@ -266,7 +267,10 @@ def run(ctx):
                     again = pr[0]
                     break
             if again is None:
-                raise vlib.MachineryError("race report of %s did not reproduce in 3 fresh processes:\n%s" % (name, p["race"][:3000]))
+                # a report that cannot be reproduced is never a verdict; it is a machinery failure unless the same run has
+                # deterministic violations to report (decided at the end)
+                unreproduced.append("race report of %s did not reproduce in 3 fresh processes:\n%s" % (name, p["race"][:3000]))
+                continue
             tops = top_frames(again["race"])
             ctx.violation(sig, "DATA RACE while %d goroutines ran %s on one published module: %s" % (p["g"], name, " <-> ".join(tops)),
                           {"case": case, "iters": iters * 2, "report": again["race"][:4000]})
@@ -304,6 +308,10 @@ def run(ctx):
         "solo transcripts are taken on a structurally equal module in the same process (string hashes are seeded per process)",
         "quick tier runs unordered pairs (both roles run concurrently in either order) and a seeded sample of the two-operation sequences",
     ]
+    if unreproduced:
+        if not ctx.violations:
+            raise vlib.MachineryError(unreproduced[0])
+        ctx.notes.append("%d race report(s) did not reproduce and were not reported: %s" % (len(unreproduced), unreproduced[0][:300]))
     return ctx.finish(rule="combinations = behaviours of C05MC (all ordered pairs of 54 operation x kind on 2 threads; all triples of a reduced set; two-op "
                            "sequences of the position-decoding operations), each run on 2..8 goroutines x iterations on a freshly published module with two "
                            "variants (plain / nested) of every kind; plus every operation x kind x variant twice on one thread under hooks; distinct = "
